@@ -53,3 +53,226 @@ def provn_string_literal_denotes(lit_slots, src, space):
         return z3.And(st["ok"], z3.Or(z3.And(empty_short, n == 0), z3.And(closed, st["j"] == n)))
 
     return run_reader(lit_slots, step, init, final)
+
+
+# ------------------------------------------------------------------------------------------------------------------
+# DOT tokens
+# ------------------------------------------------------------------------------------------------------------------
+
+def _stream_array(slots, space, tag):
+    """array view of a guarded slot sequence: (Array C, length n) with C[position of slot k] == char k"""
+    C = z3.Array("%s_%s" % (tag, space.uniq()), z3.IntSort(), z3.IntSort())
+    pos = z3.IntVal(0)
+    for g, c in slots:
+        if z3.is_true(g):
+            space.add(C[pos] == c)
+        else:
+            space.add(z3.Implies(g, C[pos] == c))
+        pos = z3.simplify(pos + z3.If(g, 1, 0))
+    return C, pos
+
+
+def dot_quoted_string_denotes(tok_slots, src_slots, space):
+    """z3 Bool: tok spells ONE complete DOT double-quoted string (Graphviz scanner: \\" is a quote, \\\\ a pair of
+    backslashes, the first bare " ends the string) whose content denotes src either literally or after escString
+    decoding of \\\\ -> \\ .  Other backslash sequences are left as they are (they cannot break the syntax)."""
+    C, n = _stream_array(src_slots, space, "Q")
+
+    def step(st, ch):
+        opening = st["phase"] == 0
+        body = st["phase"] == 1
+        done = st["phase"] == 2
+        bs = st["bs"] == 1
+        is_q = ch == 34
+        is_bs = ch == 92
+        j = st["j"]
+        # inside the body
+        end_here = z3.And(body, z3.Not(bs), is_q)
+        start_bs = z3.And(body, z3.Not(bs), is_bs)
+        plain = z3.And(body, z3.Not(bs), z3.Not(is_q), z3.Not(is_bs))
+        esc_q = z3.And(body, bs, is_q)          # \" -> "
+        esc_bs = z3.And(body, bs, is_bs)        # \\ -> \  (escString level)
+        esc_other = z3.And(body, bs, z3.Not(is_q), z3.Not(is_bs))  # \x : backslash stays, x stays
+        # literal-level comparison (lexer output): \" -> ", everything else unchanged (\\ stays two chars)
+        lit_emit1 = z3.Or(plain, esc_q)          # emits ch
+        lit_ok = z3.And(
+            z3.Implies(lit_emit1, z3.And(st["jl"] < n, C[st["jl"]] == ch)),
+            z3.Implies(start_bs, z3.BoolVal(True)),
+            # a backslash that is not followed by a quote is emitted when the NEXT char arrives
+            z3.Implies(z3.Or(esc_bs, esc_other), z3.And(st["jl"] + 1 < n, C[st["jl"]] == 92, C[st["jl"] + 1] == ch)),
+        )
+        jl = z3.If(lit_emit1, st["jl"] + 1, z3.If(z3.Or(esc_bs, esc_other), st["jl"] + 2, st["jl"]))
+        # escString-level comparison: \" -> ", \\ -> \, \x -> \x
+        es_ok = z3.And(
+            z3.Implies(z3.Or(plain, esc_q, esc_bs), z3.And(j < n, C[j] == ch)),
+            z3.Implies(esc_other, z3.And(j + 1 < n, C[j] == 92, C[j + 1] == ch)),
+        )
+        j2 = z3.If(z3.Or(plain, esc_q, esc_bs), j + 1, z3.If(esc_other, j + 2, j))
+        return {
+            "phase": z3.If(opening, z3.If(is_q, 1, 3), z3.If(end_here, 2, z3.If(done, 3, st["phase"]))),
+            "bs": z3.If(start_bs, 1, 0),
+            "j": j2, "jl": jl,
+            "es": z3.And(st["es"], es_ok), "li": z3.And(st["li"], lit_ok),
+        }
+
+    init = {"phase": z3.IntVal(0), "bs": z3.IntVal(0), "j": z3.IntVal(0), "jl": z3.IntVal(0),
+            "es": z3.BoolVal(True), "li": z3.BoolVal(True)}
+
+    def final(st):
+        return z3.And(st["phase"] == 2, st["bs"] == 0,
+                      z3.Or(z3.And(st["es"], st["j"] == n), z3.And(st["li"], st["jl"] == n)))
+
+    return run_reader(tok_slots, step, init, final)
+
+
+_ENTITIES = [("amp", 38), ("lt", 60), ("gt", 62), ("quot", 34), ("#x27", 39), ("#39", 39), ("apos", 39)]
+
+
+def html_label_matches(tok_slots, skeleton, data_slots, space):
+    """z3 Bool: tok spells a Graphviz HTML-like string '<' ... '>' whose STRUCTURE characters (tags without the
+    contents of their quoted attribute values, and the outer delimiters) are exactly the constant `skeleton`, and whose
+    DATA characters (text nodes and attribute-value contents, entities decoded) are exactly `data_slots`.
+    Hence nothing a source string contains can add, remove or change markup."""
+    D, nd = _stream_array(data_slots, space, "HD")
+    sk = [ord(c) for c in skeleton]
+
+    def sk_at(p):
+        if z3.is_int_value(p):
+            i = p.as_long()
+            return z3.IntVal(sk[i] if 0 <= i < len(sk) else -1)
+        out = z3.IntVal(-1)
+        for i in range(len(sk) - 1, -1, -1):
+            out = z3.If(p == i, sk[i], out)
+        return out
+
+    TEXT, TAG, ATTR = 0, 1, 2
+
+    def step(st, ch):
+        mode, ent, p, j = st["mode"], st["ent"], st["p"], st["j"]
+        in_ent = ent > 0
+        e = [st["e0"], st["e1"], st["e2"], st["e3"], st["e4"]]
+        first = st["started"] == 0
+        # entity handling (text or attribute value)
+        data_mode = z3.Or(mode == TEXT, mode == ATTR)
+        amp = z3.And(z3.Not(first), data_mode, z3.Not(in_ent), ch == 38)
+        ent_char = z3.And(in_ent, ch != 59)
+        ent_end = z3.And(in_ent, ch == 59)
+        cnt = ent - 1  # chars accumulated so far
+        decoded = z3.IntVal(-1)
+        for name, code in _ENTITIES:
+            m = z3.And(cnt == len(name), *[e[i] == ord(name[i]) for i in range(len(name))])
+            decoded = z3.If(m, code, decoded)
+        ent_err = z3.Or(z3.And(ent_char, cnt >= 5), z3.And(ent_end, decoded == -1))
+        # structure characters
+        lt = ch == 60
+        gt = ch == 62
+        qt = ch == 34
+        text_lt = z3.And(z3.Not(first), mode == TEXT, z3.Not(in_ent), lt)          # opens a tag
+        text_gt = z3.And(z3.Not(first), mode == TEXT, z3.Not(in_ent), gt)          # closes the whole label (must be last)
+        tag_gt = z3.And(mode == TAG, gt)
+        tag_qt = z3.And(mode == TAG, qt)
+        attr_qt = z3.And(mode == ATTR, z3.Not(in_ent), qt)
+        attr_bad = z3.And(mode == ATTR, z3.Not(in_ent), lt)
+        tag_other = z3.And(mode == TAG, z3.Not(gt), z3.Not(qt))
+        struct = z3.Or(first, text_lt, text_gt, tag_gt, tag_qt, attr_qt, tag_other)
+        struct_ok = z3.Implies(struct, sk_at(p) == ch)
+        p2 = z3.If(struct, p + 1, p)
+        # data characters
+        plain_data = z3.And(z3.Not(first), data_mode, z3.Not(in_ent), z3.Not(amp), z3.Not(struct), z3.Not(attr_bad))
+        emit = z3.Or(plain_data, ent_end)
+        val = z3.If(ent_end, decoded, ch)
+        data_ok = z3.Implies(emit, z3.And(j < nd, D[j] == val))
+        j2 = z3.If(emit, j + 1, j)
+        mode2 = z3.If(first, TEXT, z3.If(text_lt, TAG, z3.If(tag_gt, TEXT, z3.If(tag_qt, ATTR, z3.If(attr_qt, TAG, mode)))))
+        ent2 = z3.If(amp, 1, z3.If(ent_char, ent + 1, z3.If(ent_end, 0, ent)))
+        ne = []
+        for i in range(5):
+            ne.append(z3.If(z3.And(ent_char, cnt == i), ch, z3.If(amp, 0, e[i])))
+        return {
+            "started": z3.IntVal(1), "mode": mode2, "ent": ent2, "p": p2, "j": j2,
+            "e0": ne[0], "e1": ne[1], "e2": ne[2], "e3": ne[3], "e4": ne[4],
+            "closed": z3.If(text_gt, 1, z3.If(st["closed"] == 1, 2, st["closed"])),
+            "ok": z3.And(st["ok"], struct_ok, data_ok, z3.Not(ent_err), z3.Not(attr_bad),
+                         z3.Implies(first, lt)),
+        }
+
+    init = {"started": z3.IntVal(0), "mode": z3.IntVal(TEXT), "ent": z3.IntVal(0), "p": z3.IntVal(0), "j": z3.IntVal(0),
+            "e0": z3.IntVal(0), "e1": z3.IntVal(0), "e2": z3.IntVal(0), "e3": z3.IntVal(0), "e4": z3.IntVal(0),
+            "closed": z3.IntVal(0), "ok": z3.BoolVal(True)}
+
+    def final(st):
+        return z3.And(st["ok"], st["closed"] == 1, st["mode"] == TEXT, st["ent"] == 0,
+                      st["p"] == len(sk), st["j"] == nd)
+
+    return run_reader(tok_slots, step, init, final)
+
+
+# ---- plain-Python twins of the transducers (used for self-tests and for Stage B) -----------------------------------
+
+def py_dot_quoted(tok):
+    """-> (lexer-level content, escString-level content) or None when tok is not exactly one quoted string"""
+    if len(tok) < 2 or tok[0] != '"':
+        return None
+    lit, es = [], []
+    i = 1
+    while i < len(tok):
+        c = tok[i]
+        if c == '"':
+            return ("".join(lit), "".join(es)) if i == len(tok) - 1 else None
+        if c == "\\":
+            if i + 1 >= len(tok):
+                return None
+            d = tok[i + 1]
+            if d == '"':
+                lit.append('"'); es.append('"')
+            elif d == "\\":
+                lit.append("\\\\"); es.append("\\")
+            else:
+                lit.append("\\" + d); es.append("\\" + d)
+            i += 2
+            continue
+        lit.append(c); es.append(c)
+        i += 1
+    return None
+
+
+def py_html_label(tok):
+    """-> (skeleton, data) or None when tok is not a well-formed HTML-like string of the supported shape"""
+    ents = dict(_ENTITIES)
+    if len(tok) < 2 or tok[0] != "<":
+        return None
+    sk, data = ["<"], []
+    mode = 0
+    i = 1
+    while i < len(tok):
+        c = tok[i]
+        if mode in (0, 2) and c == "&":
+            k = tok.find(";", i)
+            if k < 0 or k - i - 1 > 5 or tok[i + 1:k] not in ents:
+                return None
+            data.append(chr(ents[tok[i + 1:k]]))
+            i = k + 1
+            continue
+        if mode == 0:
+            if c == "<":
+                sk.append(c); mode = 1
+            elif c == ">":
+                sk.append(c)
+                return ("".join(sk), "".join(data)) if i == len(tok) - 1 else None
+            else:
+                data.append(c)
+        elif mode == 1:
+            sk.append(c)
+            if c == ">":
+                mode = 0
+            elif c == '"':
+                mode = 2
+        else:
+            if c == '"':
+                sk.append(c); mode = 1
+            elif c == "<":
+                return None
+            else:
+                data.append(c)
+        i += 1
+    return None
